@@ -112,7 +112,8 @@ def finish(ctx, meta, t0, replay_only=None):
     stale = [k for k in open_keys if k not in seen_known]
     for k in stale:
         ctx.note(f"known finding {k} no longer reported by its rule (stale entry)")
-    outdir = os.path.join(VERIF, "replays")
+    scratch = bool(os.environ.get("VERIF_NO_EVIDENCE"))
+    outdir = os.path.join(VERIF, "replays") if not scratch else os.path.join("/tmp", f"verif_replays_{os.getpid()}")
     lines = []
     if violations:
         os.makedirs(outdir, exist_ok=True)
@@ -158,7 +159,7 @@ def finish(ctx, meta, t0, replay_only=None):
         "wall_s": round(wall, 3),
         "violations": len(seenv),
     }
-    if replay_only is None:
+    if replay_only is None and not scratch:
         os.makedirs(os.path.join(VERIF, "evidence"), exist_ok=True)
         with open(os.path.join(VERIF, "evidence", f"{prop}.json"), "w") as fh:
             json.dump(ev, fh, indent=1, default=str)
